@@ -42,11 +42,12 @@ def gen_case(rng):
     mode = rng.choice(["initialize", "scan", "scan+initialize",
                        "scan||initialize", "scan||initialize",
                        "two-masters", "cancelled-scan+scan",
-                       "reinit-after-insert", "reconnect"])
+                       "reinit-after-insert", "reconnect", "scan+hotplug"])
     n = rng.randint(2, 40)
     if mode == "scan||initialize":
         n = rng.randint(2, 6)      # few addresses: collisions are likely
-    if mode in ("cancelled-scan+scan", "reinit-after-insert", "reconnect"):
+    if mode in ("cancelled-scan+scan", "reinit-after-insert", "reconnect",
+                "scan+hotplug"):
         n = rng.randint(2, 8)
     lo = rng.choice([1, 100, 1000, 30000])
     slack = rng.choice([0, 1, 2, 5, 20])
@@ -275,6 +276,44 @@ def run_case(case):
             hook(len(terms) - 1, new)
             await asyncio.wait_for(asyncio.gather(
                 *[ts[i].initialize(relative=-i) for i in first]), 5000)
+            return
+        if case["mode"] == "scan+hotplug":
+            # the bus is scanned; later terminals are plugged in behind the
+            # others, some of them carrying an address from elsewhere
+            # (configured by another tool, another master) that lies in this
+            # master's range, the others without one: those are initialised.
+            # The range has hardly more addresses than terminals.
+            result["scan"] = await asyncio.wait_for(
+                ec.scan_serial_numbers(), 5000)
+            hrng = random.Random(case["faultseed"] ^ 0x77)
+            lo_, hi_ = case["range"]
+            free = [a for a in range(lo_, hi_ + 1)
+                    if a not in {x.station for x in terms}]
+            hrng.shuffle(free)
+            nfree = len(free)
+            k_ = min(hrng.randint(1, 3), max(0, nfree - 1))
+            j_ = min(hrng.randint(1, 3), nfree - k_)
+            foreign = free[:k_]
+            # leave exactly the addresses the newcomers need (plus one now
+            # and then): every other address of the range is in use
+            spare = free[k_ + j_ + hrng.choice([0, 0, 1]):]
+            new = []
+            for a in foreign + spare:
+                t_ = bus.SimTerminal(f"Tf{a}", eeprom=eeprom_image(0),
+                                     station=a)
+                terms.append(t_)
+                hook(len(terms) - 1, t_)
+            first_new = len(terms)
+            for q in range(j_):
+                t_ = bus.SimTerminal(f"Tn{q}", eeprom=eeprom_image(0),
+                                     station=0)
+                terms.append(t_)
+                hook(len(terms) - 1, t_)
+            result["hotplugged"] = [len(foreign) + len(spare), j_]
+            ts = [Terminal(ec) for _ in range(j_)]
+            await asyncio.wait_for(asyncio.gather(
+                *[t.initialize(relative=-(first_new + q))
+                  for q, t in enumerate(ts)]), 5000)
             return
         if "scan" in case["mode"]:
             result["scan"] = await asyncio.wait_for(
@@ -536,7 +575,7 @@ def finalize(res, tier, seed):
         res.inconc("fork leg did not run")
     for m in ("initialize", "scan", "scan+initialize", "scan||initialize",
               "two-masters", "cancelled-scan+scan", "reinit-after-insert",
-              "reconnect"):
+              "reconnect", "scan+hotplug"):
         if not c.get(f"mode[{m}]"):
             res.inconc(f"mode {m} never ran")
 
